@@ -22,6 +22,13 @@ BUDGET = {"quick": 80, "thorough": 600}
 ODE_TEXTS = [
     "parameters(\"membrane\", g=ScalarParam(0.5, unit=\"uS\"), E=-60.5)\nstates(\"membrane\", V=ScalarParam(-87.0, unit=\"mV\"))\nstates(\"gate\", m=0.05)\nparameters(\"gate\", tau=2.0)\n\nexpressions(\"membrane\")\nI = g * (V - E) * m\ndV_dt = -I\n\nexpressions(\"gate\")\nminf = 1 / (1 + exp(-(V + 40) / 6.8))\ndm_dt = (minf - m) / tau\n",
     "parameters(\"main\", a=1.5, b=0.25)\nstates(\"main\", x=0.5, y=1.25)\n\nexpressions(\"main\")\nw = Conditional(Gt(x, 0.25), a * x, b)\ndx_dt = w - y * x\ndy_dt = sqrt(abs(x)) - y\n",
+    # n-ary And / Or where one operand alone decides (the last, the first, a middle one)
+    "parameters(\"main\", a=1.5, b=0.25)\nstates(\"main\", x=0.5, y=1.25)\n\nexpressions(\"main\")\nw = Conditional(And(Gt(x, 0.25), Lt(y, 2.0), Gt(a, 2.0)), a * x, b)\n"
+    "u = Conditional(Or(Gt(x, 1.25), Lt(y, 0.0), Gt(a, 1.0)), 2.5, x)\nv5 = Conditional(And(Gt(x, 0.25), Lt(y, 2.0), Gt(a, 1.0), Lt(b, 1.0), Gt(y, 1.5)), 3.5, y)\n"
+    "v1 = Conditional(And(Gt(x, 0.75), Lt(y, 2.0), Gt(a, 1.0)), 4.5, y * 2)\nv2 = Conditional(Or(Gt(x, 0.75), Lt(y, 2.0), Gt(a, 3.0), Lt(b, 0.0)), 5.5, y * 3)\n"
+    "dx_dt = w - y * x + u + v1\ndy_dt = v5 - y + v2 * 0.125\n",
+    "parameters(\"membrane\", g=ScalarParam(0.5, unit=\"uS\"), E=ScalarParam(-60.5, unit=\"mV\"), Cm=ScalarParam(1.0, unit=\"uF*cm**-2\"))\nstates(\"membrane\", V=ScalarParam(-87.0, unit=\"mV\"))\n\n"
+    "expressions(\"membrane\")\nI = g * (V - E) # uA\ndV_dt = -I / Cm # mV/ms\n",
 ]
 
 
@@ -31,6 +38,8 @@ def plan(tier, seed):
         specs.append({"klass": "repo_cellml", "i": 2, "file": "tests/cellml_files/ToRORd_dynCl_mid.cellml", "soft_timeout": 900})
     for k in range(len(ODE_TEXTS)):
         specs.append({"klass": "ode_text_export", "i": k})
+    for k in range(30 if tier == "quick" else 400):
+        specs.append({"klass": "ode_text_export_random", "i": 1000 + k, "fill": k >= 8})
     n = 70 if tier == "quick" else 1200
     for k in range(n):
         specs.append({"klass": "generated_mmt", "i": k, "fill": k >= 16})
@@ -97,6 +106,11 @@ def compare_rhs(model, mod, out, cn, label, rng, name_of):
                 cn["illconditioned_skipped"] = cn.get("illconditioned_skipped", 0) + 1
                 continue
             g = float(got[sidx[name_of(v)]])
+            if label != "imported" and not math.isfinite(g):
+                # for a converted-back model the generated rhs stands for the gotranx model: where that is undefined
+                # (e.g. 0.1*t/t at t = 0) any value of the Myokit model is acceptable
+                cn["undefined_in_gotranx_model_skipped"] = cn.get("undefined_in_gotranx_model_skipped", 0) + 1
+                continue
             compared += 1
             if not (math.isfinite(g) and abs(g - w) <= 1e-9 * abs(w) + 1e-12):
                 mv = None
@@ -111,6 +125,61 @@ def compare_rhs(model, mod, out, cn, label, rng, name_of):
     return compared
 
 
+def check_units(orig, back, out, cn, label, reloaded=False):
+    """Every variable's unit in the Myokit model converted back equals the original one (Myokit's own Unit equality)."""
+    import myokit
+
+    n = 0
+    for v in orig.variables(deep=True):
+        if v.is_bound():
+            continue
+        comp = v.qname().split(".")[0]
+        try:
+            b = back.get(f"{comp}.{gname(v)}")
+        except Exception:
+            cn["units_variable_not_found"] = cn.get("units_variable_not_found", 0) + 1
+            continue
+        if reloaded and v.unit() in (None, myokit.units.dimensionless) and b.unit() in (None, myokit.units.dimensionless):
+            # a .ode file has no way to tell 'no unit' from the unit 1
+            continue
+        n += 1
+        if b.unit() != v.unit():
+            out["violations"].append({"kind": "unit_differs_after_round_trip", "subkind": label, "detail": {"which": label, "variable": v.qname(), "myokit": str(v.unit()), "converted_back": str(b.unit())}})
+            break
+    cn["units_compared"] = cn.get("units_compared", 0) + n
+
+
+def check_exported_declarations(ode, m2, out, cn):
+    """States (initial values), parameters (values) and their units in the Myokit model exported from .ode text."""
+    import myokit
+
+    n = 0
+    for comp in ode.components:
+        for atom, kind in [(a, "parameter") for a in comp.parameters] + [(a, "state") for a in comp.states]:
+            try:
+                v = next(x for x in m2.variables(deep=True) if x.name() == atom.name)
+            except Exception:
+                out["violations"].append({"kind": "exported_variable_missing", "subkind": kind, "detail": {"which": "exported_from_ode_text", "name": atom.name, "component": comp.name}})
+                return
+            want = float(atom.value)
+            got = float(v.initial_value(as_float=True)) if kind == "state" else float(v.rhs().eval())
+            n += 1
+            if abs(got - want) > 1e-12 * abs(want) + 1e-300:
+                out["violations"].append({"kind": "exported_value_differs", "subkind": kind, "detail": {"which": "exported_from_ode_text", "name": atom.name, "gotranx": want, "myokit": got}})
+                return
+            if atom.unit_str:
+                try:
+                    wu = myokit.parse_unit(atom.unit_str.replace("**", "^"))
+                except Exception:
+                    cn["units_not_expressible_in_myokit"] = cn.get("units_not_expressible_in_myokit", 0) + 1
+                    continue
+                n += 1
+                if v.unit() != wu:
+                    out["violations"].append({"kind": "unit_differs_after_round_trip", "subkind": kind, "detail": {"which": "exported_from_ode_text", "variable": atom.name, "gotranx": atom.unit_str, "converted_back": str(v.unit())}})
+                    return
+    cn["declarations_compared"] = cn.get("declarations_compared", 0) + n
+
+
 def run_case(spec, ctx):
     import myokit
     import myokit.formats.cellml
@@ -123,11 +192,27 @@ def run_case(spec, ctx):
     cn = out["counters"]
     work = tempfile.mkdtemp(prefix="c15-", dir=os.environ.get("VERIF_WORK"))
     text = None
-    if spec["klass"] == "ode_text_export":
+    if spec["klass"] in ("ode_text_export", "ode_text_export_random"):
         # a model written as .ode text exported to Myokit
-        text = ODE_TEXTS[spec["i"]]
-        out["hash"] = f"ode{spec['i']}"
-        ode = C.load_text(text, name="fromtext").value
+        if spec["klass"] == "ode_text_export":
+            text = ODE_TEXTS[spec["i"]]
+            out["hash"] = f"ode{spec['i']}"
+        else:
+            from ..gen import models
+            from ..gen.exprs import Profile
+
+            # literal / folding defects of the numpy printer are C01's subject: keep literals plain, structure rich
+            prof = Profile(mod=False, int_literals=False, hard_lits=False, ccond=False, pow=False, funcs=["exp", "sin", "cos", "atan", "abs", "sqrt", "log"])
+            text = models.gen_model(rng, prof, depth=3, n_states=rng.choice([1, 2, 3, 4]), n_inter=rng.choice([2, 4, 6]), n_comp=rng.choice([1, 2, 3])).render(rng)
+            out["hash"] = models.structural_hash(text)
+        lo = C.load_text(text, name="fromtext")
+        if not lo.ok:
+            out.update(status="skipped", reason="rejected_by_loader: " + lo.describe()[:100])
+            return out
+        ode = lo.value
+        if not C.py_code(ode).ok:
+            out.update(status="skipped", reason="numpy module cannot be generated (C01)")
+            return out
         ex = C.call(gm.gotran_to_myokit, ode)
         out["evaluations"] += 1
         if not ex.ok:
@@ -136,6 +221,7 @@ def run_case(spec, ctx):
         m2 = ex.value
         mod = PyModule(C.py_code(ode).value)
         cmp = compare_rhs(m2, mod, out, cn, "exported_from_ode_text", rng, lambda v: v.name())
+        check_exported_declarations(ode, m2, out, cn)
         cn["compared"] = cmp
         out["nontrivial"] = cmp >= 2
         return finish(out, text, spec)
@@ -209,6 +295,12 @@ def run_case(spec, ctx):
     cn["constants_checked"] = n_const
     if out["violations"]:
         return finish(out, text, spec)
+    # straight back to Myokit: values and units
+    ex0 = C.call(gm.gotran_to_myokit, ode)
+    if ex0.ok:
+        check_units(ref_model, ex0.value, out, cn, "myokit->gotranx->myokit")
+    else:
+        out["violations"].append({"kind": "gotran_to_myokit_raises", "subkind": "imported", "detail": {"which": "imported model", "exc": ex0.describe()[:300], "site": C.trace_site(ex0.exc, 3)}})
     # the documented save-and-reload step
     path = os.path.join(work, "imported.ode")
     sv = C.call(ode.save, path)
@@ -231,12 +323,15 @@ def run_case(spec, ctx):
         return finish(out, text, spec)
     mod = PyModule(oc.value)
     cmp = compare_rhs(ref_model, mod, out, cn, "imported", rng, gname)
+    if ex0.ok:
+        cmp += compare_rhs(ex0.value, mod, out, cn, "exported-without-reload", rng, lambda v: v.name())
     # and back to Myokit
     ex = C.call(gm.gotran_to_myokit, ode2)
     if not ex.ok:
         out["violations"].append({"kind": "gotran_to_myokit_raises", "subkind": "reloaded", "detail": {"which": "imported, saved and reloaded model", "exc": ex.describe()[:300], "site": C.trace_site(ex.exc, 3)}})
     else:
         cmp += compare_rhs(ex.value, mod, out, cn, "re-exported", rng, lambda v: v.name())
+        check_units(ref_model, ex.value, out, cn, "re-exported", reloaded=True)
     cn["compared"] = cmp
     out["nontrivial"] = cmp >= 2
     return finish(out, text, spec)
